@@ -86,6 +86,48 @@ def fz(x):
     return x + 0.0
 
 
+KNOWN_BROKER = {'_epsilon', '_holdings_margins', '_holdings_quantity', '_initial_deposit', '_last_accrual', '_last_marking_to_market_price',
+                'base_currency', 'exchange', 'fees', 'track_record'}
+KNOWN_EXCHANGE = {'_books', '_init_args', '_init_kwargs', '_nr_callbacks', '_observed_events', 'last_update', 'name'}
+KNOWN_BOOK = {'ask_price', 'ask_size', 'bid_price', 'bid_size', 'history', 'is_alive', 'time'}
+
+
+def _opaque(v):
+    try:
+        return pickle.dumps(v, pickle.HIGHEST_PROTOCOL)
+    except Exception:
+        return repr(v)
+
+
+def hidden_state(b, contracts):
+    """Any attribute the pinned Broker / Exchange / order book does NOT have (a cache, a memo, a 'last seen' stamp added by a
+    change) is part of the state as far as deduplication goes: two states that differ only there must not be merged, or the
+    search would go blind exactly where such a change matters.  Empty on the pinned tree, so the key is unchanged there."""
+    out = [("b", k, _opaque(v)) for k, v in sorted(vars(b).items()) if k not in KNOWN_BROKER]
+    ex = b.exchange
+    out += [("x", k, _opaque(v)) for k, v in sorted(vars(ex).items()) if k not in KNOWN_EXCHANGE]
+    for c in contracts:
+        try:
+            book = ex[c]
+            out += [("k", c.symbol, k, _opaque(v)) for k, v in sorted(vars(book).items()) if k not in KNOWN_BOOK]
+        except Exception:
+            pass
+    return tuple(out)
+
+
+def hidden_exchange(ex):
+    """the same guard for a bare Exchange (C14): attributes the pinned Exchange / order books do not have"""
+    out = [("x", k, _opaque(v)) for k, v in sorted(vars(ex).items()) if k not in KNOWN_EXCHANGE]
+    books = getattr(ex, "_books", None)
+    if isinstance(books, dict):
+        for bk_key, book in sorted(books.items(), key=lambda kv: str(kv[0])):
+            try:
+                out += [("k", str(bk_key), k, _opaque(v)) for k, v in sorted(vars(book).items()) if k not in KNOWN_BOOK]
+            except TypeError:
+                pass
+    return tuple(out)
+
+
 def broker_key(b, contracts):
     """Canonical broker state (DESIGN 2.1): every field a Broker method reads."""
     hq = tuple(sorted((str(getattr(k, "symbol", k)), fz(v)) for k, v in b._holdings_quantity.items() if v != 0 or isinstance(k, Cash)))
@@ -95,7 +137,7 @@ def broker_key(b, contracts):
     for c in contracts:
         book = b.exchange[c]
         bk.append((c.symbol, fz(book.bid_price), fz(book.ask_price), book.is_alive))
-    return (hq, hm, lm, tuple(bk), b._last_accrual)
+    return (hq, hm, lm, tuple(bk), b._last_accrual, hidden_state(b, contracts))
 
 
 def liq_side(book, q):
